@@ -161,7 +161,10 @@ def _io_unit(which):
             enc_given = path.fresh_bool('encoding_given')
             cls_enc, cls_nl = ObjV('str', {}, name='cls.encoding'), ObjV('str', {}, name='cls.newline')
             f = ObjV('file', {}, name='file')
-            f.fields['getvalue'] = meth(lambda p, a, k: ObjV('str', {'rstrip': meth(lambda p2, a2, k2: ObjV('str', {}, name='stripped'))}, name='text'))
+            text = ObjV('str', {}, name='text')
+            stripped = ObjV('str', {}, name='text.rstrip()')
+            text.fields['rstrip'] = meth(lambda p2, a2, k2: stripped if len(a2) <= 1 and not k2 else NONE)
+            f.fields['getvalue'] = meth(lambda p, a, k: text)
             result = ObjV('ContextArgs', {}, name='loadf-result')
             rstrip = path.fresh_bool('dumps_rstrip')
             cls = ObjV('class', {'encoding': cls_enc, 'newline': cls_nl, 'dumps_rstrip': BoolV(rstrip),
@@ -210,6 +213,10 @@ def _io_unit(which):
                         and calls[1][1][-4:] == [f, names['objects'], names['properties'], names['bools']] \
                         and calls[1][2].get('_serialized') is names['_serialized']
                     path.oblige('post/dumped-into-a-string-buffer-with-the-format-newline', 'post', BoolVal(ok))
+                    # the buffer's text, right-stripped exactly when the format says so (dumps_rstrip)
+                    from z3 import If as _If
+                    path.oblige('post/returns-the-text-rstripped-iff-dumps_rstrip', 'post',
+                                _If(rstrip, BoolVal(outcome[1] is stripped), BoolVal(outcome[1] is text)))
             return env, {'globals': g}, finish
         return bits.axioms(), harness
     return make
